@@ -28,7 +28,7 @@ def main(tier):
     def lat(u):
         uni, depth, td = u
         out = f'{V}/build/esclat-{uni.replace(",", "_")}.json'
-        r = subprocess.run([f'{V}/bin/vp', 'esclat', '-universe', uni, '-depth', str(depth), '-tripledepth', str(td), '-out', out],
+        r = subprocess.run([f'{vlib.BIN}/vp', 'esclat', '-universe', uni, '-depth', str(depth), '-tripledepth', str(td), '-out', out],
                            capture_output=True, text=True, env=vlib.GOENV, timeout=7200)
         if r.returncode != 0 or not os.path.exists(out):
             return None, r.stderr[-1500:]
